@@ -951,7 +951,9 @@ func (p *Server) Formatting(ctx context.Context, params *lsp.DocumentFormattingP
 		},
 		NewText: w.String(),
 	})
-	d.Replace(w.String())
+	// The document itself is left alone: it changes when the client says so. The
+	// client may not apply the edit (the document has moved on, the request was
+	// cancelled), and if it does, it sends a change in terms of the unformatted text.
 	return
 }
 
